@@ -45,6 +45,7 @@ def canonDirsOf : Entries → Entries
 end
 
 @[simp] theorem noFaults_putFails (b : Blob) : noFaults.putFails b = false := rfl
+@[simp] theorem noFaults_readlinkFails (t : Str) : noFaults.readlinkFails t = false := rfl
 
 theorem files_decode (es : Entries) :
     (es.filterMap (fileOf noFaults)).map (fun e => (e.1, Node.file e.2.2 e.2.1)) = filesOfE es := by
@@ -55,7 +56,7 @@ theorem files_decode (es : Entries) :
     cases nd <;> simp [List.filterMap_cons, fileOf, filesOfE, ih]
 
 theorem symlinks_decode (es : Entries) :
-    (es.filterMap symlinkOf).map (fun e => (e.1, Node.symlink e.2)) = symlinksOfE es := by
+    (es.filterMap (symlinkOf noFaults)).map (fun e => (e.1, Node.symlink e.2)) = symlinksOfE es := by
   induction es with
   | nil => rfl
   | cons p rest ih =>
@@ -77,8 +78,8 @@ theorem dirs_decode (es : Entries) (h : ∀ p ∈ es, PDecode p.2) (hc : cleanEn
       simp only [cleanEntries, Bool.and_eq_true] at hc
       simp [List.filterMap_cons, dirOf, canonDirsOf, ihr hc.2]
     | symlink t =>
-      simp only [cleanEntries] at hc
-      simp [List.filterMap_cons, dirOf, canonDirsOf, ihr hc]
+      simp only [cleanEntries, Bool.and_eq_true] at hc
+      simp [List.filterMap_cons, dirOf, canonDirsOf, ihr hc.2]
     | special =>
       simp only [cleanEntries] at hc
       simp [List.filterMap_cons, dirOf, canonDirsOf, ihr hc]
